@@ -663,11 +663,15 @@ pub fn explore(cfg: &L2Cfg, keep_for_progress: usize) -> (Sys, Tables, L2Result)
     res.states = 1;
     let mut depth = 0u32;
     let mut viol: BTreeMap<String, (String, serde_json::Value)> = BTreeMap::new();
+    let mut last_level = std::time::Duration::ZERO;
     'outer: while !frontier.is_empty() {
-        if std::time::Instant::now() > cfg.deadline || res.states >= cfg.max_states {
+        // a level costs about (growth factor) x the previous one: do not start a level that cannot
+        // be completed before the deadline (an unfinished level would not count anyway)
+        if std::time::Instant::now() + last_level * 2 > cfg.deadline || res.states >= cfg.max_states {
             res.capped = true;
             break 'outer;
         }
+        let t_level = std::time::Instant::now();
         // phase 1: actions of every frontier state; collect the local transitions not yet known
         let tp0 = std::time::Instant::now();
         let per_state: Vec<(Vec<v2::FinalBlock>, Vec<(Action, MemoKey)>)> = crate::core::par_map(frontier.len(), |fi| {
@@ -754,6 +758,7 @@ pub fn explore(cfg: &L2Cfg, keep_for_progress: usize) -> (Sys, Tables, L2Result)
             }
         }
         if std::env::var("VERIF_DEBUG").is_ok() { eprintln!("   deriv {}ms zmsg {}ms key {}ms", T_DERIV.load(std::sync::atomic::Ordering::Relaxed)/1000, T_ZMSG.load(std::sync::atomic::Ordering::Relaxed)/1000, T_KEY.load(std::sync::atomic::Ordering::Relaxed)/1000); eprintln!("depth {depth}: frontier {} actions {} needed {} | phase1 {:.2}s phase2 {:.2}s phase3 {:.2}s", frontier.len(), level.len(), needed.len(), (tp1-tp0).as_secs_f64(), (tp2-tp1).as_secs_f64(), tp2.elapsed().as_secs_f64()); }
+        last_level = t_level.elapsed();
         depth += 1;
         res.completed_depth = depth;
         res.max_depth = depth;
